@@ -128,6 +128,85 @@ theorem hexDecodePure_valid : ∀ (s : List Nat), AllHex s →
         simp only [hexDecodePure, hx, hy, List.length_cons, ih1, ih2, e1, e2, e3, List.take_succ_cons,
           ih3, and_self]
 
+/-! ### in-place decoding -/
+
+theorem getElem?_after (dec mid rest : List Nat) (h : mid.length = dec.length) (j : Nat) :
+    (dec ++ mid ++ rest)[2 * dec.length + j]? = rest[j]? := by
+  rw [List.getElem?_append_right (by simp only [List.length_append]; omega)]
+  congr 1
+  simp only [List.length_append]; omega
+
+theorem set_at (dec mid rest : List Nat) (a b v : Nat) (h : mid.length = dec.length) :
+    (dec ++ mid ++ a :: b :: rest).set dec.length v =
+      (dec ++ [v]) ++ (mid ++ [a, b]).drop 1 ++ rest := by
+  apply List.ext_getElem?
+  intro k
+  simp only [List.getElem?_drop, List.getElem?_set, List.getElem?_append,
+    List.getElem?_cons, List.length_drop,
+    List.length_append, List.length_cons, List.length_nil]
+  grind
+
+theorem inPlaceLoop_eq : ∀ (fuel : Nat) (src dec mid : List Nat), mid.length = dec.length →
+    src.length / 2 = fuel →
+    hexDecodeInPlaceLoop fuel (dec ++ mid ++ src) dec.length (2 * dec.length) =
+      some (dec ++ (hexDecodePure src).1 ++ (mid ++ src).drop (hexDecodePure src).1.length,
+            dec.length + (hexDecodePure src).1.length, (hexDecodePure src).2)
+  | 0, [], dec, mid, h, _ => by
+    have : (dec ++ mid ++ []).length % 2 = 0 := by simp only [List.length_append, List.length_nil]; omega
+    have hne : ¬ (dec ++ mid ++ []).length % 2 = 1 := by omega
+    simp only [hexDecodeInPlaceLoop, hexDecodePure, hne, if_false]
+    simp
+  | 0, [c], dec, mid, h, _ => by
+    have hl : (dec ++ mid ++ [c]).length % 2 = 1 := by
+      simp only [List.length_append, List.length_cons, List.length_nil]; omega
+    have hg := getElem?_after dec mid [c] h 0
+    simp only [Nat.add_zero, List.getElem?_cons_zero] at hg
+    cases hc : fromHexChar c <;>
+      simp only [hexDecodeInPlaceLoop, hexDecodePure, hl, hg, hc, if_true] <;> simp
+  | 0, _ :: _ :: _, _, _, _, hf => by simp only [List.length_cons] at hf; omega
+  | fuel + 1, [], _, _, _, hf => by simp at hf
+  | fuel + 1, [_], _, _, _, hf => by simp at hf
+  | fuel + 1, a :: b :: src, dec, mid, h, hf => by
+    have hf' : src.length / 2 = fuel := by simp only [List.length_cons] at hf; omega
+    have hg0 := getElem?_after dec mid (a :: b :: src) h 0
+    have hg1 := getElem?_after dec mid (a :: b :: src) h 1
+    simp only [Nat.add_zero, List.getElem?_cons_zero] at hg0
+    simp only [List.getElem?_cons_succ, List.getElem?_cons_zero] at hg1
+    cases ha : fromHexChar a with
+    | none => simp only [hexDecodeInPlaceLoop, hexDecodePure, hg0, hg1, ha]; simp
+    | some x =>
+      cases hb : fromHexChar b with
+      | none => simp only [hexDecodeInPlaceLoop, hexDecodePure, hg0, hg1, ha, hb]; simp
+      | some y =>
+        have hlen : dec.length < (dec ++ mid ++ a :: b :: src).length := by
+          simp only [List.length_append, List.length_cons]; omega
+        have hml : ((mid ++ [a, b]).drop 1).length = (dec ++ [((x <<< 4) % 256) ||| y]).length := by
+          simp only [List.length_drop, List.length_append, List.length_cons, List.length_nil]; omega
+        have ih := inPlaceLoop_eq fuel src (dec ++ [((x <<< 4) % 256) ||| y]) ((mid ++ [a, b]).drop 1) hml hf'
+        have e1 : (dec ++ [((x <<< 4) % 256) ||| y]).length = dec.length + 1 := by simp
+        have e2 : 2 * (dec.length + 1) = 2 * dec.length + 2 := by omega
+        rw [e1, e2] at ih
+        simp only [hexDecodeInPlaceLoop, hexDecodePure, hg0, hg1, ha, hb, setByte, hlen, if_true,
+          set_at dec mid src a b _ h, ih]
+        simp only [Option.some.injEq, Prod.mk.injEq, List.length_cons]
+        refine ⟨?_, by omega, trivial⟩
+        apply List.ext_getElem?
+        intro k
+        simp only [List.getElem?_drop, List.getElem?_append,
+          List.getElem?_cons, List.length_drop,
+          List.length_append, List.length_cons, List.length_nil]
+        grind
+
+/-- `HexDecodeInPlace` (`hex.Decode(b, b)`, source and destination the same array): never
+panics; the write cursor never overtakes the read cursor, so the result is the pure decoding
+followed by the untouched rest of the buffer. -/
+theorem hexDecodeInPlace?_eq (b : List Nat) :
+    hexDecodeInPlace? b =
+      some ((hexDecodePure b).1 ++ b.drop (hexDecodePure b).1.length,
+            (hexDecodePure b).1.length, (hexDecodePure b).2) := by
+  have h := inPlaceLoop_eq (b.length / 2) b [] [] rfl rfl
+  simpa [hexDecodeInPlace?] using h
+
 /-! ### encoding -/
 
 /-- A lower-case hex digit character `0-9a-f`. -/
